@@ -70,12 +70,18 @@ def arm_pattern(okey):
     return re.sub(r"(::|/)c\d+(?![A-Za-z0-9_])", r"\1c#", k)
 
 
+_FINDING_KEYS = [None]
+
+
 def load_armed():
     if _ARMED[0] is None:
         try:
-            _ARMED[0] = set(json.load(open(ARMED_PATH))["patterns"])
+            j = json.load(open(ARMED_PATH))
+            _ARMED[0] = set(j["patterns"])
+            _FINDING_KEYS[0] = set(j.get("finding_keys", []))
         except Exception:
             _ARMED[0] = set()
+            _FINDING_KEYS[0] = set()
     return _ARMED[0]
 
 
@@ -84,6 +90,10 @@ def is_armed(armed, key):
     pat = arm_pattern(ok)
     if pat in armed or ok in armed:
         return True
+    # recorded findings (known / fixed) arm their exact key and the sub-instances below it
+    for fk in (_FINDING_KEYS[0] or ()):
+        if ok == fk or ok.startswith(fk + "/"):
+            return True
     # a key with a dynamic payload is armed through its static prefix
     import re
     gk = re.sub(r"(::|/)c\d+(?![A-Za-z0-9_])", r"\1c#", ok)
